@@ -152,7 +152,8 @@ class SearchCriteria(metaclass=ABCMeta):
             name, value = key.filter_header
             return HeaderSearchCriteria(name, value, params)
         elif key_name in (b'BODY', b'TEXT'):
-            return BodySearchCriteria(key.filter_str, params)
+            return BodySearchCriteria(key.filter_str, params,
+                                      body_only=(key_name == b'BODY'))
         raise SearchNotAllowed(key)
 
 
@@ -429,10 +430,12 @@ class HeaderSearchCriteria(SearchCriteria):
 class BodySearchCriteria(SearchCriteria):
     """Matches if the message body contains a value."""
 
-    def __init__(self, value: str, params: SearchParams) -> None:
+    def __init__(self, value: str, params: SearchParams, *,
+                 body_only: bool = False) -> None:
         super().__init__(params)
         self.value = bytes(value, 'utf-8', 'replace')
+        self.body_only = body_only
 
     def matches(self, msg_seq: int, msg: MessageInterface,
                 loaded_msg: LoadedMessageInterface) -> bool:
-        return loaded_msg.contains(self.value)
+        return loaded_msg.contains(self.value, body_only=self.body_only)
